@@ -81,9 +81,19 @@ func GenTable(rng *rand.Rand, format string, maxLines int) *Table {
 	}
 	if format == "generickv" && rng.Intn(2) == 0 {
 		// fields whose names look like keywords / aggregations (need back-quotes)
+		// (every clause keyword in turn, in varying case: a back-quoted name is a name, wherever it stands and whichever
+		// clauses the query has)
+		kw := []string{"limit", "from", "group", "order", "rorder", "where", "set", "select", "interval", "outfile", "logformat", "Group", "ORDER", "Limit"}
+		k1, k2 := kw[rng.Intn(len(kw))], kw[rng.Intn(len(kw))]
+		if strings.EqualFold(k1, k2) {
+			k2 = "from"
+			if strings.EqualFold(k1, k2) {
+				k2 = "limit"
+			}
+		}
 		defs = append(defs,
-			fdef{"limit", func() string { return fmt.Sprint(rng.Intn(5)) }, "group", 0.1},
-			fdef{"from", func() string { return pick(rng, []string{"de", "us", "uk"}) }, "group", 0.1},
+			fdef{k1, func() string { return fmt.Sprint(rng.Intn(5)) }, "group", 0.1},
+			fdef{k2, func() string { return pick(rng, []string{"de", "us", "uk"}) }, "group", 0.1},
 			fdef{"count(lat)", func() string { return fmt.Sprint(rng.Intn(9)) }, "str", 0.2})
 	}
 	for _, d := range defs {
